@@ -68,6 +68,9 @@ pub mod k {
     pub const IOERR_AFTER: i128 = 41; // >= 0: the client's socket fails every send after that many
     pub const IMPLICIT_FINISH: i128 = 42; // 1: writers of uni streams drop the SendStream instead of calling finish()
     pub const STOP_BY_DROP: i128 = 43; // 1: at STOP_AT the reader drops the RecvStream instead of calling stop()
+    pub const ZRTT: i128 = 44; // 0 none; 1 accepted / 2 rejected 0-RTT: warm-up connection, then a second one with into_0rtt()
+    pub const STOP_EVERY: i128 = 45; // 1: STOP_AT applies to every uni stream, not only the first
+    pub const EARLY_BYTES: i128 = 46; // bytes written on each early (0-RTT) stream
     pub const MAX_TIME: i128 = 52;
 }
 
@@ -89,6 +92,7 @@ pub const O_READ_TO_END: i128 = 14;
 pub const O_WRITE_ALL: i128 = 15;
 pub const O_HS_CONFIRMED: i128 = 16;
 pub const O_STOPPED_DETACHED: i128 = 17;
+pub const O_AUTH: i128 = 18;
 pub const O_SLEEP: i128 = 90;
 pub const O_INTERNAL: i128 = 91;
 
@@ -430,6 +434,10 @@ impl Ctx {
         }
     }
     fn spawn<F: Future<Output = ()> + 'static>(&self, mk: impl FnOnce(Ctx) -> F) {
+        self.spawn_ep(self.ep, mk)
+    }
+    /// spawn a task that belongs to (virtual) endpoint `ep` = endpoint + 2 * connection index
+    fn spawn_ep<F: Future<Output = ()> + 'static>(&self, ep: usize, mk: impl FnOnce(Ctx) -> F) {
         let st = Rc::new(TaskSt {
             cur_op: Cell::new((-1, 0, -1)),
             forced: Cell::new(false),
@@ -438,10 +446,10 @@ impl Ctx {
             rng: RefCell::new(Rng::new(self.st.rng.borrow_mut().next())),
             cancel_pm: self.st.cancel_pm,
         });
-        let cx = Ctx { sh: self.sh.clone(), task: Rc::new(Cell::new(-1)), ep: self.ep, st: st.clone(), w: self.w.clone() };
+        let cx = Ctx { sh: self.sh.clone(), task: Rc::new(Cell::new(-1)), ep, st: st.clone(), w: self.w.clone() };
         let cell = cx.task.clone();
         let fut = mk(cx);
-        NEWQ.with(|q| q.borrow_mut().push(NewTask::App(self.ep, st, cell, Box::pin(fut))));
+        NEWQ.with(|q| q.borrow_mut().push(NewTask::App(ep, st, cell, Box::pin(fut))));
     }
 }
 struct PollOrCancel<'a, F: Future> {
@@ -584,6 +592,10 @@ struct World {
     conn: [Slot<Connection>; 2],
     jobs: Counter,
     echoes: Counter,
+    zr_srv: Counter,   // server: connection handlers still running
+    zr_gate: Counter,  // client waits until the server is ready for the second connection
+    zr_acc: Counter,   // server: the spawned handler has called Incoming::accept
+    zr_cli: Counter,   // client: helper tasks of the second connection still running
     saddr: SocketAddr,
 }
 
@@ -1148,9 +1160,13 @@ async fn server_main(cx: Ctx, ep: Endpoint) {
 }
 
 async fn server_acc_uni(cx: Ctx) {
-    let p = &cx.w.p;
     let Some(conn) = cx.w.conn[1].get(&cx).await else { return };
     cx.h_new(1, -1);
+    acc_uni_on(cx, conn).await
+}
+/// the caller has logged the handle `conn` (HANDLE record) in the step that created it
+async fn acc_uni_on(cx: Ctx, conn: Connection) {
+    let p = &cx.w.p;
     loop {
         let r = op!(cx, O_ACCEPT_UNI, -1, true, conn.accept_uni());
         match r {
@@ -1159,7 +1175,7 @@ async fn server_acc_uni(cx: Ctx) {
                 cx.res(0, sid, 0, true);
                 // handle accounting: the RecvStream is created here and moved to its reader task
                 cx.h_new(3, sid);
-                let stop_at = if sid == 2 { p.get(k::STOP_AT, -1) } else { -1 };
+                let stop_at = if sid == 2 || p.get(k::STOP_EVERY, 0) == 1 { p.get(k::STOP_AT, -1) } else { -1 };
                 let delay = p.get(k::READ_DELAY_US, 0) as u64;
                 cx.spawn(move |c2| async move {
                     let mut recv = recv;
@@ -1179,9 +1195,12 @@ async fn server_acc_uni(cx: Ctx) {
 }
 
 async fn server_acc_bi(cx: Ctx) {
-    let p = &cx.w.p;
     let Some(conn) = cx.w.conn[1].get(&cx).await else { return };
     cx.h_new(1, -1);
+    acc_bi_on(cx, conn).await
+}
+async fn acc_bi_on(cx: Ctx, conn: Connection) {
+    let p = &cx.w.p;
     loop {
         let r = op!(cx, O_ACCEPT_BI, -1, true, conn.accept_bi());
         match r {
@@ -1213,6 +1232,314 @@ async fn server_acc_bi(cx: Ctx) {
     }
     cx.h_drop(1, -1);
     drop(conn);
+}
+
+
+// ------------------------------------------------------------------------------------------
+// 0-RTT scenarios (ZRTT): a warm-up connection obtains a session ticket; the second connection is
+// started with `into_0rtt()`; in mode 2 the server's configuration is replaced in between (fresh
+// ticket keys), so the early data is REJECTED. Tasks of the second connection belong to the
+// virtual endpoints 2 (client) and 3 (server). Handles created during 0-RTT are logged, in the
+// rejected mode, under the alias stream id `sid + 2^40`: after the handshake every operation on
+// them must fail with ZeroRttRejected while fresh streams REUSE the real ids.
+const EARLY_ALIAS: i128 = 1 << 40;
+
+fn fresh_server_config(p: &P) -> ServerConfig {
+    let (cert, key) = load_cert();
+    let certd = quinn::rustls::pki_types::CertificateDer::from(cert);
+    let keyd = quinn::rustls::pki_types::PrivateKeyDer::Pkcs8(key.into());
+    let mut scfg = ServerConfig::with_single_cert(vec![certd], keyd).unwrap();
+    scfg.transport_config(Arc::new(transport(p)));
+    scfg
+}
+
+async fn zr_conn_handler(cx: Ctx, inc: quinn::Incoming) {
+    let acc = inc.accept();
+    cx.w.zr_acc.done();
+    match acc {
+        Ok(connecting) => {
+            cx.h_new(1, -1);
+            PROBES.with(|q| q.borrow_mut().push((cx.ep, connecting.verif_probe().unwrap())));
+            // 0.5-RTT: always possible on the server
+            match connecting.into_0rtt() {
+                Ok(conn) => {
+                    let (c1, c2) = (conn.clone(), conn.clone());
+                    cx.h_new(1, -1);
+                    cx.h_new(1, -1);
+                    cx.spawn(move |c| acc_uni_on(c, c1));
+                    cx.spawn(move |c| acc_bi_on(c, c2));
+                    let e = op!(cx, O_CLOSED, -1, true, conn.closed());
+                    cx.res(10 + conn_err(&e), -1, 0, true);
+                    cx.h_drop(1, -1);
+                    drop(conn);
+                }
+                Err(_) => cx.h_drop(1, -1),
+            }
+        }
+        Err(_) => {}
+    }
+    cx.w.zr_srv.done();
+}
+
+async fn zr_server(cx: Ctx, ep: Endpoint) {
+    let p = &cx.w.p;
+    cx.h_new(4, -1);
+    cx.w.zr_srv.n.set(0);
+    for c in 0..2usize {
+        let inc = op!(cx, O_EP_ACCEPT, -1, true, ep.accept());
+        let Some(inc) = inc else {
+            cx.res(1, 0, 0, true);
+            break;
+        };
+        cx.res(0, 0, 0, true);
+        cx.w.zr_srv.n.set(cx.w.zr_srv.n.get() + 1);
+        cx.w.zr_acc.n.set(1);
+        cx.spawn_ep(1 + 2 * c, move |c2| zr_conn_handler(c2, inc));
+        // the connection's TLS session is created (with the CURRENT configuration) by Incoming::accept
+        cx.w.zr_acc.wait(&cx, None).await;
+        if c == 0 {
+            if p.get(k::ZRTT, 0) == 2 {
+                // "restart": same certificate, fresh ticket keys -> the ticket issued on the first
+                // connection (whose session keeps the old configuration) is useless afterwards
+                ep.set_server_config(Some(fresh_server_config(p)));
+                cx.sh.log(vec![44, cx.sh.t(), cx.tid(), 1]);
+            }
+            cx.w.zr_gate.done();
+        }
+    }
+    cx.w.zr_srv.wait(&cx, None).await;
+    cx.sh.log(vec![39, cx.sh.t(), cx.tid(), 1, 5]);
+    ep.close(VarInt::from_u32(0), b"");
+    op!(cx, O_WAIT_IDLE, -1, true, ep.wait_idle());
+    cx.res(0, 0, 0, true);
+    ep_state(&cx, &ep);
+    cx.h_drop(4, -1);
+    drop(ep);
+}
+
+async fn zr_client(cx: Ctx, ep: Endpoint) {
+    let p = &cx.w.p;
+    cx.h_new(4, -1);
+    let rtt = 2 * (p.get(k::DELAY_MAX, 0).max(p.get(k::DELAY_MIN, 5000)) as u64);
+    // --- warm-up connection (virtual endpoint 0)
+    if let Ok(mut connecting) = ep.connect(cx.w.saddr, "localhost") {
+        cx.h_new(1, -1);
+        PROBES.with(|q| q.borrow_mut().push((0, connecting.verif_probe().unwrap())));
+        let r = op!(cx, O_CONNECT, -1, false, &mut connecting);
+        drop(connecting);
+        match r {
+            Ok(conn) => {
+                cx.res(0, 0, 0, true);
+                // one acknowledged stream: by then the server's NewSessionTicket has arrived too
+                let r = op!(cx, O_OPEN_UNI, -1, true, conn.open_uni());
+                if let Ok(mut send) = r {
+                    let sid = sid_of(send.id());
+                    cx.h_new(2, sid);
+                    cx.res(0, sid, 0, true);
+                    if write_job(&cx, &mut send, sid, 300, 1, -1).await {
+                        let r = send.finish();
+                        cx.sh.log(vec![36, cx.sh.t(), cx.tid(), sid, r.is_ok() as i128, 300]);
+                        let r = op!(cx, O_STOPPED, sid, true, send.stopped());
+                        cx.res(if r.is_ok() { 0 } else { 30 }, 0, 0, true);
+                    }
+                    cx.h_drop(2, sid);
+                    drop(send);
+                } else if let Err(e) = r {
+                    cx.res(10 + conn_err(&e), -1, 0, true);
+                }
+                cx.st.cur_op.set((-2, O_SLEEP, -1));
+                cx.sleep(3 * rtt).await;
+                cx.st.cur_op.set((-1, 0, -1));
+                cx.sh.log(vec![39, cx.sh.t(), cx.tid(), 0, 0]);
+                conn.close(VarInt::from_u32(0), b"warm-up");
+                cx.h_drop(1, -1);
+                drop(conn);
+            }
+            Err(e) => {
+                cx.res(10 + conn_err(&e), 0, 0, true);
+                cx.h_drop(1, -1);
+            }
+        }
+    }
+    op!(cx, O_WAIT_IDLE, -1, true, ep.wait_idle());
+    cx.res(0, 0, 0, true);
+    cx.w.zr_gate.wait(&cx, Some(cx.sh.now.load(Ordering::Relaxed) + 5_000_000)).await;
+    // --- second connection (virtual endpoint 2)
+    cx.w.zr_cli.n.set(1);
+    let ep2 = ep.clone();
+    cx.spawn_ep(2, move |c| zr_conn2(c, ep2));
+    cx.w.zr_cli.wait(&cx, None).await;
+    op!(cx, O_WAIT_IDLE, -1, true, ep.wait_idle());
+    cx.res(0, 0, 0, true);
+    ep_state(&cx, &ep);
+    cx.h_drop(4, -1);
+    drop(ep);
+}
+
+async fn zr_conn2(cx: Ctx, ep: Endpoint) {
+    let p = &cx.w.p;
+    let mode = p.get(k::ZRTT, 1);
+    cx.h_new(4, -1);
+    let Ok(connecting) = ep.connect(cx.w.saddr, "localhost") else {
+        cx.h_drop(4, -1);
+        cx.w.zr_cli.done();
+        return;
+    };
+    cx.h_new(1, -1);
+    PROBES.with(|q| q.borrow_mut().push((cx.ep, connecting.verif_probe().unwrap())));
+    let early_bytes = p.get(k::EARLY_BYTES, 700) as usize;
+    let alias = if mode == 2 { EARLY_ALIAS } else { 0 };
+    let helpers = Rc::new(Counter { n: Cell::new(0), wakers: RefCell::new(Vec::new()) });
+    let conn = match connecting.into_0rtt() {
+        Ok(conn) => {
+            cx.sh.log(vec![43, cx.sh.t(), cx.tid(), cx.ep as i128, 1]);
+            // --- early bidirectional stream
+            let r = op!(cx, O_OPEN_BI, -1, true, conn.open_bi());
+            let mut early_send = None;
+            if let Ok((mut es, er)) = r {
+                let sid = sid_of(es.id()) + alias;
+                cx.h_new(2, sid);
+                cx.h_new(3, sid);
+                cx.res(0, sid, 0, true);
+                if write_job(&cx, &mut es, sid, early_bytes, 1, -1).await {
+                    let r = es.finish();
+                    cx.sh.log(vec![36, cx.sh.t(), cx.tid(), sid, r.is_ok() as i128, early_bytes as i128]);
+                }
+                early_send = Some((es, sid));
+                // reader of the early RecvStream: blocks until the handshake decides
+                helpers.n.set(helpers.n.get() + 1);
+                let h = helpers.clone();
+                cx.spawn(move |c| async move {
+                    let mut er = er;
+                    read_job(&c, &mut er, sid, 2, -1, 0).await;
+                    let d = [0u64, 300, 20_000, 60_000][c.st.rng.borrow_mut().below(4) as usize];
+                    c.st.cur_op.set((-2, O_SLEEP, -1));
+                    c.sleep(d).await;
+                    c.st.cur_op.set((-1, 0, -1));
+                    // a second read on the stale handle, then drop it (possibly after a fresh stream reuses the id)
+                    let mut buf = [0u8; 8];
+                    let r = op!(c, O_READ, sid, true, er.read(&mut buf));
+                    match r {
+                        Ok(Some(n)) => c.res(0, -1, n as i128, true),
+                        Ok(None) => c.res(2, 0, 0, true),
+                        Err(ReadError::ZeroRttRejected) => c.res(23, 0, 0, true),
+                        Err(ReadError::ClosedStream) => c.res(21, 0, 0, true),
+                        Err(ReadError::ConnectionLost(e)) => c.res(10 + conn_err(&e), 0, 0, true),
+                        Err(_) => c.res(20, 0, 0, true),
+                    }
+                    c.h_drop(3, sid);
+                    drop(er);
+                    h.done();
+                });
+            } else if let Err(e) = r {
+                cx.res(10 + conn_err(&e), -1, 0, true);
+            }
+            // --- early unidirectional stream; its stopped() is awaited by a helper
+            let r = op!(cx, O_OPEN_UNI, -1, true, conn.open_uni());
+            if let Ok(mut eu) = r {
+                let sid = sid_of(eu.id()) + alias;
+                cx.h_new(2, sid);
+                cx.res(0, sid, 0, true);
+                if write_job(&cx, &mut eu, sid, early_bytes, 1, -1).await {
+                    let r = eu.finish();
+                    cx.sh.log(vec![36, cx.sh.t(), cx.tid(), sid, r.is_ok() as i128, early_bytes as i128]);
+                }
+                helpers.n.set(helpers.n.get() + 1);
+                let h = helpers.clone();
+                cx.spawn(move |c| async move {
+                    let eu = eu;
+                    let r = op!(c, O_STOPPED, sid, true, eu.stopped());
+                    match r {
+                        Ok(None) => c.res(0, 0, 0, true),
+                        Ok(Some(code)) => c.res(1, code.into_inner() as i128, 0, true),
+                        Err(quinn::StoppedError::ConnectionLost(e)) => c.res(10 + conn_err(&e), 0, 0, true),
+                        Err(quinn::StoppedError::ZeroRttRejected) => c.res(23, 0, 0, true),
+                    }
+                    let d = [0u64, 300, 20_000, 60_000][c.st.rng.borrow_mut().below(4) as usize];
+                    c.st.cur_op.set((-2, O_SLEEP, -1));
+                    c.sleep(d).await;
+                    c.st.cur_op.set((-1, 0, -1));
+                    c.h_drop(2, sid);
+                    drop(eu);
+                    h.done();
+                });
+            } else if let Err(e) = r {
+                cx.res(10 + conn_err(&e), -1, 0, true);
+            }
+            // --- the handshake completes (or fails)
+            let r = op!(cx, O_AUTH, -1, true, conn.authenticated());
+            match r {
+                Ok(()) => cx.res(0, 0, 0, true),
+                Err(e) => cx.res(10 + conn_err(&e), 0, 0, true),
+            }
+            cx.sh.log(vec![41, cx.sh.t(), cx.tid(), cx.ep as i128, mode]);
+            if let Some((mut es, sid)) = early_send {
+                // a write on the early SendStream after the handshake
+                let r = op!(cx, O_WRITE, sid, true, es.write(b"late"));
+                match r {
+                    Ok(n) => cx.res(2, -1, n as i128, true),
+                    Err(WriteError::ZeroRttRejected) => cx.res(22, 0, 0, true),
+                    Err(WriteError::ClosedStream) => cx.res(21, 0, 0, true),
+                    Err(WriteError::Stopped(_)) => cx.res(20, 0, 0, true),
+                    Err(WriteError::ConnectionLost(e)) => cx.res(10 + conn_err(&e), 0, 0, true),
+                }
+                // the stale SendStream is dropped while the fresh streams are in use
+                helpers.n.set(helpers.n.get() + 1);
+                let h = helpers.clone();
+                cx.spawn(move |c| async move {
+                    let es = es;
+                    let d = [0u64, 300, 20_000, 60_000][c.st.rng.borrow_mut().below(4) as usize];
+                    c.st.cur_op.set((-2, O_SLEEP, -1));
+                    c.sleep(d).await;
+                    c.st.cur_op.set((-1, 0, -1));
+                    c.h_drop(2, sid);
+                    drop(es);
+                    h.done();
+                });
+            }
+            Some(conn)
+        }
+        Err(mut connecting) => {
+            cx.sh.log(vec![43, cx.sh.t(), cx.tid(), cx.ep as i128, 0]);
+            let r = op!(cx, O_CONNECT, -1, false, &mut connecting);
+            drop(connecting);
+            match r {
+                Ok(c) => {
+                    cx.res(0, 0, 0, true);
+                    Some(c)
+                }
+                Err(e) => {
+                    cx.res(10 + conn_err(&e), 0, 0, true);
+                    cx.h_drop(1, -1);
+                    None
+                }
+            }
+        }
+    };
+    if let Some(conn) = conn {
+        // --- fresh streams after the handshake (they reuse the early ids when 0-RTT was rejected)
+        cx.w.conn[0].set(Some(conn.clone()));
+        cx.h_new(1, -1);
+        for i in 0..p.get(k::NBIDI, 0) {
+            cx.spawn(move |c| client_bi(c, i as usize));
+        }
+        for i in 0..p.get(k::NUNI, 1) {
+            cx.spawn(move |c| client_uni(c, i as usize));
+        }
+        cx.w.jobs.wait(&cx, None).await;
+        cx.w.conn[0].clear();
+        cx.h_drop(1, -1);
+        helpers.wait(&cx, None).await;
+        cx.sh.log(vec![39, cx.sh.t(), cx.tid(), cx.ep as i128, 0]);
+        conn.close(VarInt::from_u32(0), b"done");
+        cx.h_drop(1, -1);
+        drop(conn);
+    } else {
+        cx.w.conn[0].set(None);
+    }
+    cx.h_drop(4, -1);
+    drop(ep);
+    cx.w.zr_cli.done();
 }
 
 // ------------------------------------------------------------------------------------------
@@ -1398,6 +1725,10 @@ fn run(sh: Arc<Sh>, p: P, saddr: SocketAddr) {
         conn: [Slot::new(), Slot::new()],
         jobs: Counter { n: Cell::new(n_jobs as i64), wakers: RefCell::new(Vec::new()) },
         echoes: Counter { n: Cell::new(0), wakers: RefCell::new(Vec::new()) },
+        zr_srv: Counter { n: Cell::new(0), wakers: RefCell::new(Vec::new()) },
+        zr_gate: Counter { n: Cell::new(1), wakers: RefCell::new(Vec::new()) },
+        zr_acc: Counter { n: Cell::new(0), wakers: RefCell::new(Vec::new()) },
+        zr_cli: Counter { n: Cell::new(0), wakers: RefCell::new(Vec::new()) },
         saddr,
         p,
     });
@@ -1424,7 +1755,10 @@ fn run(sh: Arc<Sh>, p: P, saddr: SocketAddr) {
 
     // application tasks
     let mut ts = Rng::new(seed ^ 0x7777);
-    {
+    if p.get(k::ZRTT, 0) > 0 {
+        push_app(&sh, &w, 1, ts.next(), move |cx| zr_server(cx, sep));
+        push_app(&sh, &w, 0, ts.next(), move |cx| zr_client(cx, cep));
+    } else     {
         let sep2 = sep.clone();
         push_app(&sh, &w, 1, ts.next(), move |cx| server_accept(cx, sep2));
         push_app(&sh, &w, 1, ts.next(), move |cx| server_main(cx, sep));
@@ -1454,7 +1788,8 @@ fn run(sh: Arc<Sh>, p: P, saddr: SocketAddr) {
 
     let mut tasks: Vec<Task> = Vec::new();
     let mut ep_seen = [false; 2];
-    let mut last_snap: Vec<Vec<i128>> = vec![Vec::new(), Vec::new()];
+    let mut last_snap: BTreeMap<usize, Vec<i128>> = BTreeMap::new();
+    let mut conn_count = [0usize; 2];
     let mut steps: u64 = 0;
     let mut quiesced = 0;
     let mut semis = 0;
@@ -1469,8 +1804,15 @@ fn run(sh: Arc<Sh>, p: P, saddr: SocketAddr) {
                 NewTask::Quinn(ep, fut) => {
                     let kind = if ep_seen[ep] { 1 } else { 0 };
                     ep_seen[ep] = true;
-                    sh.log(vec![33, sh.t(), id as i128, kind, ep as i128]);
-                    tasks.push(Task { fut: Some(fut), kind, ep, wk, st: None });
+                    // connection drivers belong to the virtual endpoint ep + 2 * connection index
+                    let vep = if kind == 1 {
+                        conn_count[ep] += 1;
+                        ep + 2 * (conn_count[ep] - 1)
+                    } else {
+                        ep
+                    };
+                    sh.log(vec![33, sh.t(), id as i128, kind, vep as i128]);
+                    tasks.push(Task { fut: Some(fut), kind, ep: vep, wk, st: None });
                 }
                 NewTask::App(ep, st, cell, fut) => {
                     sh.log(vec![33, sh.t(), id as i128, 2, ep as i128]);
@@ -1585,11 +1927,11 @@ fn run(sh: Arc<Sh>, p: P, saddr: SocketAddr) {
         PROBES.with(|q| {
             for (side, pr) in q.borrow().iter() {
                 let snap = pr.snapshot().unwrap_or_default();
-                if snap != last_snap[*side] {
+                if Some(&snap) != last_snap.get(side).or(if snap.is_empty() { Some(&snap) } else { None }) {
                     let mut r = vec![27, sh.t(), *side as i128, if snap.is_empty() { 0 } else { 1 }];
                     r.extend(snap.iter().copied());
                     sh.log(r);
-                    last_snap[*side] = snap;
+                    last_snap.insert(*side, snap);
                 }
             }
         });
